@@ -9,7 +9,8 @@ WORK = os.path.join(VERIF, "evidence", "work")
 REPLAY = os.path.join(VERIF, "evidence", "replay")
 ALLOWED_AXIOMS = {"propext", "Classical.choice", "Quot.sound"}
 GOENV = dict(os.environ, GOFLAGS="-mod=mod", GOPROXY="off", GOSUMDB="off", GOTOOLCHAIN="local",
-             GOMEMLIMIT="6GiB")
+             GOMEMLIMIT="6GiB", GORACE="exitcode=0 history_size=3")
+LAST_STDERR = {"text": ""}
 TRUSTED_BASE = [
     "Lean 4.33.0 kernel; axioms allowed: propext, Classical.choice, Quot.sound (audited per theorem with #print axioms on every run; no sorry/admit/native_decide/bv_decide/custom axioms: grep on every run)",
     "/verif/extract (go/ast fact extractor and expression translator) says what the source says",
@@ -198,6 +199,35 @@ def prove(pid):
 
 # ---------------------------------------------------------------- pipeline
 
+class HarnessCrash(Exception):
+    """the harness process died (fatal runtime error, timeout): carries the id of the case it was running"""
+    def __init__(self, fam, case_id, stderr, seed, tier):
+        Exception.__init__(self, "harness crashed while running case %s" % case_id)
+        self.fam, self.case_id, self.stderr, self.seed, self.tier = fam, case_id, stderr, seed, tier
+
+
+def regenerate_case(fam, case_id, seed, tier, replay=None):
+    """the generator is deterministic in (seed, index): fetch a case without running it"""
+    exe = os.path.join(BIN, "harness")
+    idx = None
+    m = re.match(r".*-(\d+)-(\d+)$", case_id or "")
+    if replay:
+        for line in open(replay):
+            c = json.loads(line)
+            if c.get("id") == case_id:
+                return c
+        return None
+    if not m:
+        return None
+    idx = int(m.group(2))
+    p = sh([exe, "-fam", fam, "-seed", str(seed), "-n", str(idx + 1), "-tier", tier, "-gen-only"], env=GOENV)
+    for line in p.stdout.splitlines():
+        c = json.loads(line)
+        if c.get("id") == case_id:
+            return c
+    return None
+
+
 def run_family(fam, n, seed, tier, replay=None, extra=None, race=False, timeout=3600):
     """harness -> driver; returns list of dict(case, go, m). Corpus cases run first."""
     exe, err = build_harness(race=race)
@@ -217,7 +247,13 @@ def run_family(fam, n, seed, tier, replay=None, extra=None, race=False, timeout=
     mout = os.path.join(WORK, tag + ".m.jsonl")
     with open(hout, "w") as fh:
         p = subprocess.run(cmd, stdout=fh, stderr=subprocess.PIPE, text=True, env=GOENV, timeout=timeout)
+    LAST_STDERR["text"] = p.stderr
     if p.returncode != 0:
+        last = None
+        for mm in re.finditer(r"^CASE (\S+)$", p.stderr, flags=re.M):
+            last = mm.group(1)
+        if last:
+            raise HarnessCrash(fam, last, p.stderr[-3000:], seed, tier)
         raise RuntimeError("harness failed: %s\n%s" % (cmd, p.stderr[-4000:]))
     with open(hout) as fin, open(mout, "w") as fout:
         p = subprocess.run([driver_path()], stdin=fin, stdout=fout, stderr=subprocess.PIPE, text=True, timeout=timeout)
